@@ -3,7 +3,7 @@ _U = SBUF + ["src/helper/Reply.cc", "src/helper/ChildConfig.cc", "src/MemBuf.cc"
              "src/comm/Connection.cc", "src/CommCalls.cc", "src/base/AsyncCall.cc", "src/base/CodeContext.cc", "src/base/Stopwatch.cc", "src/SquidMath.cc",
              "src/String.cc", "src/ip/Address.cc", "src/SquidConfig.cc", "lib/rfc1738.cc", "lib/util.cc"]
 _R = ("both-in-order", "both-swapped", "one-unknown-or-duplicate", "none")
-_KF = "; deliveries in which a read ends inside or right behind the channel-ID digits of a line that concerns an outstanding request are excluded (KNOWN-FINDING candidate, see assumptions)"
+_KF = ""
 def _c(n, ids, digits):
     q = ("one concurrent helper session (concurrency=16) with two outstanding requests on channels %s; the helper writes two reply lines '<ID> SP r <x> LF' whose channel-ID fields are %s fully symbolic "
          "decimal digits each and whose payload byte x is symbolic in a..z (so: either order, duplicated, unknown and zero-padded IDs); the %d..%d-byte stream is cut into two reads at every position" % (ids, digits, 10, 12))
@@ -18,14 +18,12 @@ SPEC = dict(
     harness="C47_helper.cc", units=_U,
     # the harness TU contains the real helper.cc (#include); -O0 (+sroa/mem2reg) keeps std::map::find() a chain of branches instead of pointer selects on the symbolic channel number
     o0_units=["HARNESS"],
-    # C47_SPLIT_ID=1 drops the KNOWN-FINDING assumption to show the counterexamples
-    defines=(["C47_INCLUDE_SPLIT_ID=1"] if _os.environ.get("C47_SPLIT_ID") else []),
     scope="kernel",
     scope_note="kernel decided: the reply dispatch of src/helper.cc -- helperHandleRead() (line splitting, channel-ID extraction, buffer compaction between reads), Helper::Session::popRequest(), "
                "helperReturnBuffer(), Helper::Client::callBack(), with Helper::Reply::accumulate()/finalize() building the reply and with the channel IDs handed out by the real helperSubmit()/"
                "helperDispatch() on a session created by the real Helper::Client::openSessions() -- calls back a request only with the payload of a reply line that carries that request's channel ID, "
                "at most once, and exactly when such a line has arrived completely; lines with unknown or already-answered IDs call nobody back; with concurrency=0 the replies go to the requests in "
-               "submission order; for every value of the symbolic channel-ID digits and payload bytes and every listed cut of the stream into reads (minus the KNOWN-FINDING candidate class); "
+               "submission order; for every value of the symbolic channel-ID digits and payload bytes and every listed cut of the stream into reads; "
                "gap: helper process creation and pipe I/O (ipcCreate, comm_read, Comm::Write are stubs), stateful helpers (helperStatefulHandleRead), request timeouts and retries, more than two "
                "outstanding requests or one session, what redirect.cc / external_acl.cc do with the reply they are handed",
     entries=dict(quick=[f[0] for f in _FAM], thorough=[f[1] for f in _FAM]),
@@ -36,8 +34,6 @@ SPEC = dict(
            "memory pools behind cbdata.cc are plain heap blocks (MemPools::GetInstance/create defined in the harness); tvSubMsec() defined in the harness with the formula of time/gadgets.cc (statistics only)",
            "std::_Rb_tree_insert_and_rebalance/_Rb_tree_rebalance_for_erase/_Rb_tree_increment/_Rb_tree_decrement (libstdc++.so, std::map requestsIndex) modelled in the harness as an unbalanced binary search tree for the interpreted build; the native replay uses libstdc++",
            "int shutting_down, reconfiguring, starting_up defined by the harness (globals.cc not linked)", "debugs() disabled"],
-    assumptions=["KNOWN-FINDING candidate excluded by vf_assume: a read that ends inside or right behind the channel-ID digits of a reply line (before the separating space) while the digits seen so far, or the "
-                 "complete ID of that line, name an outstanding request: helperHandleRead() pops the request named by the partial ID at once and appends the whole line (ID included) to it on the next read",
-                 "a CR that a read boundary separates from its LF stays at the end of the reply text (accepted by the harness: the reply is still the right one)"],
+    assumptions=["a CR that a read boundary separates from its LF stays at the end of the reply text (accepted by the harness: the reply is still the right one)"],
     outside="everything listed under gap; reply payloads other than two non-whitespace bytes (result codes, key=value annotations, embedded whitespace); channel-ID fields with a sign, leading whitespace or more than two digits",
 )
